@@ -221,11 +221,16 @@ def newItems (next : Nat) (sub : Nat) : Nat → List Item
   | 0 => []
   | n + 1 => ⟨next + 1, sub⟩ :: newItems (next + 1) sub n
 
+/-- the interval class the subscription goroutine works with: the requested one, or — when
+    CreateSubscription revises the interval into [min, max] first (regenerated fact) — never `subMs` -/
+def effectiveInterval (iv : Interval) : Interval :=
+  if publishingIntervalRevised && iv == .subMs then .small else iv
+
 /-- the body of an implemented handler, after the (generated) session guard -/
 def body (st : St) (t : Tok) : Req → St × Out
   | .findServers =>
-    -- s.srv.Endpoints()[0].Server
-    if st.endpointsEmpty then (st, .crash "DiscoveryService.FindServers") else (st, .ok "")
+    -- s.srv.Endpoints()[0].Server: index out of range on an empty endpoint list unless it is checked first
+    if st.endpointsEmpty && !findServersChecksEndpoints then (st, .crash "DiscoveryService.FindServers") else (st, .ok "")
   | .getEndpoints => (st, .ok "")
   | .createSession k chanSecure cert =>
     -- sb.NewSession() first; the signature is made afterwards
@@ -236,7 +241,7 @@ def body (st : St) (t : Tok) : Req → St × Out
       | .unparsable => (st', .fault "BadInternalError")
       | .nonRsa =>
         -- PublicKey.(*rsa.PublicKey): unchecked ⇒ panic; checked ⇒ "error creating session signature"
-        if newSessionSignatureChecked then (st', .fault "BadInternalError")
+        if newSessionSignatureChecked then (st', .fault "BadCertificateInvalid")
         else (st', .crash "SecureChannel.NewSessionSignature")
   | .activateSession chanSecure sigOk =>
     match findSession st t with
@@ -275,7 +280,8 @@ def body (st : St) (t : Tok) : Req → St × Out
       -- td.DataType(): v.Value.Value().(*ua.ExpandedNodeID) on the DataType entry of every target
       if refsTestNode then
         match st.dataTypeAttr with
-        | .wrongType => (st, .crash "Node.DataType")   -- unchecked type assertion
+        | .wrongType =>                                -- `.(*ua.ExpandedNodeID)`: unchecked ⇒ panic
+          if dataTypeAssertionChecked then (st, .ok "Good") else (st, .crash "Node.DataType")
         | _ => (st, .ok "Good")                        -- nil value: falls through to the reference scan
       else (st, .ok "Good")
   | .createSubscription iv =>
@@ -284,7 +290,7 @@ def body (st : St) (t : Tok) : Req → St × Out
     let owner := (findSession st t).map (·.token)
     let st' := { st with subs := putSub st.subs ⟨id, owner⟩, lastSub := id }
     -- sub.Start(): go run(); the handler itself answers
-    match iv with
+    match effectiveInterval iv with
     | .subMs => (st', .crash "Subscription.run")          -- time.NewTicker(non-positive)
     | .small => if owner.isNone then (st', .crash "Subscription.run") else (st', .ok "")   -- s.Session.PublishRequests at the first keep-alive
     | .huge => (st', .ok "")
